@@ -408,12 +408,17 @@ def selectAddrFromSubnet (seed : Bytes) (n : RawNet) : Prog (Outcome Bytes) :=
     let rb ← drawRead seedInt (n.bits / 8)
     return addrFromRand n rb
 
-/-- the search loop of the legacy selectors; `strict`: version 0 tests `min < id`, version 1 `min ≤ id` -/
+/-- the range test of the legacy search loops: `max ≥ id ∧ min ≤ id`; version 0 (`strict`) tests
+`min < id` -/
+def hit (strict : Bool) (mn mx id : Nat) : Bool :=
+  decide (mx ≥ id) && (if strict then decide (mn < id) else decide (mn ≤ id))
+
+/-- the search loop of the legacy selectors (no `break`: the last match wins) -/
 def findLegacy (strict : Bool) (seed : Bytes) :
     List (Nat × Nat × Net) → Nat → Option Addr → Prog (Outcome (Option Addr))
   | [], _, r => .done (.ok r)
   | (mn, mx, n) :: rest, id, r =>
-    if mx ≥ id ∧ (if strict then mn < id else mn ≤ id) then do
+    if hit strict mn mx id then do
       match ← selectAddrFromSubnet seed n.toRawNet with
       | .ok b => findLegacy strict seed rest id (some ⟨b, n.randPort⟩)
       | .err e => return .err e
@@ -523,7 +528,7 @@ def compatFind (v0 : Bool) (seed : Bytes) :
     List (Nat × Nat × Net) → Nat → Option Bytes → Prog (Outcome (Option Bytes))
   | [], _, r => .done (.ok r)
   | (mn, mx, n) :: rest, id, r =>
-    if mx ≥ id ∧ (if v0 then mn < id else mn ≤ id) then do
+    if hit v0 mn mx id then do
       match ← compatSelectAddr v0 seed n.toRawNet with
       | .ok b => compatFind v0 seed rest id (some b)
       | .err e => return .err e
